@@ -523,7 +523,7 @@ func planC14(prop string, thorough bool, r *simctl.Rand) []RunConfig {
 	}
 	// the 10^6-bit workflows: a few in quick, many in thorough
 	big := []string{WPowerOn, WPowerOnFast}
-	nbig := 6
+	nbig := 4
 	if thorough {
 		big = []string{WPowerOn, WPowerOnFast, WFactory, WFactoryFast}
 		nbig = 48
@@ -537,6 +537,43 @@ func planC14(prop string, thorough bool, r *simctl.Rand) []RunConfig {
 			n := 2 + r.Intn(63)
 			cs := contents(n)
 			add(w, StreamSpec{Kind: "periodic", Period: hex.EncodeToString(cs[r.Intn(len(cs))])}, "short-cycle-big")
+		}
+	}
+	// one set (or cleared) bit per 63/64-byte period, at chosen bit positions:
+	// every 500-bit block of a 10^6-bit sample then holds at most one set
+	// bit, at a position that walks through the block (Berlekamp-Massey's
+	// late-first-discrepancy path). Quick: four positions per residue class
+	// mod 4; thorough: every position.
+	for _, n := range []int{64, 63} {
+		var poss []int
+		if thorough {
+			for p := 0; p < n*8; p++ {
+				poss = append(poss, p)
+			}
+		} else if n == 64 {
+			for res := 0; res < 4; res++ {
+				for k := 0; k < 2; k++ {
+					poss = append(poss, 4*r.Intn(n*2)+res)
+				}
+			}
+		} else {
+			poss = []int{4*r.Intn(n*2) + 3, 4 * r.Intn(n*2)}
+		}
+		for i, p := range poss {
+			c := make([]byte, n)
+			c[p/8] = 0x80 >> uint(p%8)
+			note := "single-one-per-period"
+			if thorough && i%8 == 7 {
+				for j := range c {
+					c[j] ^= 0xff
+				}
+				note = "single-zero-per-period"
+			}
+			w := []string{WPowerOn, WPowerOnFast}[i%2]
+			if thorough && i%16 == 3 {
+				w = []string{WFactory, WFactoryFast}[(i/16)%2]
+			}
+			add(w, StreamSpec{Kind: "periodic", Period: hex.EncodeToString(c)}, note)
 		}
 	}
 	// single-shot: all-zero and all-one at every admissible length
